@@ -400,3 +400,27 @@ func ZZ_C16_contract() {
 		run(true, 2, 2, false)
 	}
 }
+
+// ZZ_C16_usercode_distinct: device sessions are stored under the SIGNATURE of the user code, so two different
+// user codes must never share a signature - for every alphabet an operator may configure (UserCodeSymbols),
+// not only for the default one. Two symbolic codes over letters of both cases, digits and '-'.
+func ZZ_C16_usercode_distinct() {
+	cfg := &fosite.Config{GlobalSecret: []byte("0123456789abcdef0123456789abcdef-global")}
+	strat := compose.NewDeviceStrategy(cfg)
+	ctx := context.Background()
+	alphabet := "ABCDEFGHIJKLMNOPQRSTUVWXYZabcdefghijklmnopqrstuvwxyz0123456789-"
+	excl := ""
+	for c := 32; c < 127; c++ {
+		if !strings.ContainsRune(alphabet, rune(c)) {
+			excl += string(rune(c))
+		}
+	}
+	a := zz.StringEx("codeA", 5, excl)
+	b := zz.StringEx("codeB", 5, excl)
+	zz.Assume(a != "" && b != "" && a != b)
+	sa, errA := strat.UserCodeSignature(ctx, a)
+	sb, errB := strat.UserCodeSignature(ctx, b)
+	zz.Assume(errA == nil && errB == nil)
+	zz.Assert(sa != sb, "two different user codes never share a stored signature")
+	zz.Cover("usercode:two-codes-signed", true)
+}
